@@ -5,6 +5,7 @@ package main
 
 import (
 	"context"
+	"database/sql"
 	"encoding/json"
 	"sort"
 	"strconv"
@@ -68,6 +69,43 @@ func (e *Exec) dumpDB(root *kv.DB, out map[string]interface{}) {
 	out["entries"] = entries
 	out["size"] = int(root.Size())
 	out["height"] = root.Height()
+	// scan order: the cursor's sequence of keys against native SQLite's ORDER BY of the same values (strictly
+	// increasing = same sequence, no key twice)
+	keys := []string{}
+	for _, en := range entries {
+		keys = append(keys, en.(map[string]interface{})["key"].(string))
+	}
+	out["order_ok"] = e.nativeStrictlyIncreasing(keys)
+}
+
+// nativeStrictlyIncreasing reports whether keys (typed literals) are in the order native SQLite sorts them in, without
+// duplicates (under SQLite's comparison, so 1 and 1.0 count as the same key).
+func (e *Exec) nativeStrictlyIncreasing(keys []string) bool {
+	if len(keys) < 2 {
+		return true
+	}
+	db, err := sql.Open("sqlite3", ":memory:")
+	if err != nil {
+		panic(err)
+	}
+	defer db.Close()
+	db.SetMaxOpenConns(1)
+	if _, err := db.Exec("create table o (pos integer, k)"); err != nil {
+		panic(err)
+	}
+	tx, _ := db.Begin()
+	for i, k := range keys {
+		if _, err := tx.Exec("insert into o values (?, ?)", i, mustLit(k)); err != nil {
+			panic(err)
+		}
+	}
+	tx.Commit()
+	var bad int
+	// a pair out of order or equal: some later key is not greater than an earlier one
+	if err := db.QueryRow("select count(*) from o a join o b on b.pos = a.pos + 1 where not (a.k < b.k)").Scan(&bad); err != nil {
+		panic(err)
+	}
+	return bad == 0
 }
 
 func (e *Exec) doDump(s Step) {
